@@ -119,6 +119,8 @@ static qlisttbl_obj_t *newobj(const char *name, const void *data, size_t size);
 static bool insertobj(qlisttbl_t *tbl, qlisttbl_obj_t *obj);
 static qlisttbl_obj_t *findobj(qlisttbl_t *tbl, const char *name, qlisttbl_obj_t *retobj);
 
+static bool putdata(qlisttbl_t *tbl, const char *name, const void *data,
+                    size_t size, bool inserttop);
 static bool namematch(qlisttbl_obj_t *obj, const char *name, uint32_t hash);
 static bool namecasematch(qlisttbl_obj_t *obj, const char *name, uint32_t hash);
 
@@ -248,6 +250,14 @@ qlisttbl_t *qlisttbl(int options)
  */
 bool qlisttbl_put(qlisttbl_t *tbl, const char *name, const void *data, size_t size)
 {
+    return putdata(tbl, name, data, size, tbl->inserttop);
+}
+
+#ifndef _DOXYGEN_SKIP
+// put an element at the top or at the bottom of the table.
+static bool putdata(qlisttbl_t *tbl, const char *name, const void *data,
+                    size_t size, bool inserttop)
+{
     // make new object table
     qlisttbl_obj_t *obj = newobj(name, data, size);
     if (obj == NULL) {
@@ -265,7 +275,7 @@ bool qlisttbl_put(qlisttbl_t *tbl, const char *name, const void *data, size_t si
         obj->prev = NULL;
         obj->next = NULL;
     } else {
-        if (tbl->inserttop == false) {
+        if (inserttop == false) {
             obj->prev = tbl->last;
             obj->next = NULL;
         } else {
@@ -280,6 +290,7 @@ bool qlisttbl_put(qlisttbl_t *tbl, const char *name, const void *data, size_t si
 
     return true;
 }
+#endif /* _DOXYGEN_SKIP */
 
 /**
  * qlisttbl->putstr(): Put a string into this table.
@@ -989,7 +1000,7 @@ ssize_t qlisttbl_load(qlisttbl_t *tbl, const char *filepath, char sepchar,
         if (decode == true) qurl_decode(data);
 
         // add to the table.
-        if (qlisttbl_put(tbl, name, data, strlen(data) + 1) == true) {
+        if (putdata(tbl, name, data, strlen(data) + 1, false) == true) {
             cnt++;
         }
 
